@@ -24,6 +24,18 @@ from opacus.utils.uniform_sampler import (
 from torch.utils.data import BatchSampler, DataLoader, Sampler
 
 
+def _drop_unfinished_logical_batch(optimizer: DPOptimizer):
+    """
+    An iteration may have been left early (peek at a batch, break, exception). Skip signals
+    queued for physical batches that never reached ``optimizer.step()`` and a partly
+    accumulated logical batch must not leak into the next iteration.
+    """
+    optimizer._step_skip_queue.clear()
+    if optimizer._is_last_step_skipped:
+        optimizer._is_last_step_skipped = False
+        optimizer.zero_grad()
+
+
 class BatchSplittingSampler(Sampler[List[int]]):
     """
     Samples according to the underlying instance of ``Sampler``, but splits
@@ -52,6 +64,7 @@ class BatchSplittingSampler(Sampler[List[int]]):
         self.optimizer = optimizer
 
     def __iter__(self):
+        _drop_unfinished_logical_batch(self.optimizer)
         for batch_idxs in self.sampler:
             if len(batch_idxs) == 0:
                 self.optimizer.signal_skip_step(do_skip=False)
@@ -180,4 +193,4 @@ class BatchMemoryManager:
         )
 
     def __exit__(self, type, value, traceback):
-        pass
+        _drop_unfinished_logical_batch(self.optimizer)
